@@ -157,6 +157,26 @@ Theorem C11_attach_later_same_view :
 Proof. exact f11_attach_accepted. Qed.
 Print Assumptions C11_attach_later_same_view.
 
+(* an announced value the declared type cannot read (`650-NumCPUs=auto`) is outside the envelope of the
+   theorems above; the checks judge the settled history (Spec.C11.settle: the unreadable line removed, so
+   the option keeps its view and every other option of the event reads as announced).  Anchor: the
+   settled witness is in scope, the model runs it and the oracle accepts; settling is idempotent. *)
+Theorem C11_unparsable_item_settled :
+  (c11_scope w11_unparsable = false) /\
+  (i_ops (settle w11_unparsable) =
+    [OpEvent [(bs "Nickname", Some (bs "carol")); (bs "Log", Some (bs "err stderr"))];
+     OpRead (bs "NumCPUs"); OpRead (bs "Nickname"); OpRead (bs "Log"); OpEvent [(bs "Nickname", Some (bs "dave"))]; OpRead (bs "NumCPUs")]) /\
+  accepted11 (settle w11_unparsable) 1 (XVal (RAtom (AInt 2))) /\
+  accepted11 (settle w11_unparsable) 2 (XVal (RAtom (AStr (bs "carol")))) /\
+  accepted11 (settle w11_unparsable) 3 (XVal (RList true [bs "err stderr"])) /\
+  accepted11 (settle w11_unparsable) 5 (XVal (RAtom (AInt 2))).
+Proof. exact f11_unparsable_settled. Qed.
+Print Assumptions C11_unparsable_item_settled.
+
+Theorem C11_settle_idempotent : forall i, settle (settle i) = settle i.
+Proof. exact settle_idem. Qed.
+Print Assumptions C11_settle_idempotent.
+
 (* ---- the open finding: the full statement fails on a concrete input of the class ---- *)
 Theorem C11_edit_while_detached_refuted :
   exists i, edit_while_detached i = true /\ c11_scope i = true /\
